@@ -246,85 +246,121 @@ func (a Box2) MinMaxDist2(p v2.Vec) Interval {
 
 //-----------------------------------------------------------------------------
 
-// tAppend appends a t-value to the slice if it is unique and in range.
-func tAppend(set []float64, t float64) []float64 {
-	if t < 0 || t > 1 {
-		// out of range
-		return set
+// clipRange clips the range from a to b (the x or y values of the end points of
+// a line segment) to [min, max]. ok is false if they have no more than a single
+// value in common. If a is outside [min, max] then t0 is the parameter value
+// (0 at a, 1 at b) at which the range enters it and x0 the value taken there
+// (min or max), else t0 is -Inf. Likewise t1 (else +Inf) and x1 if b is outside.
+// What is inside is decided by comparing the values, not the parameter values.
+func clipRange(a, b, min, max float64) (t0, t1, x0, x1 float64, ok bool) {
+	t0, t1 = math.Inf(-1), math.Inf(1)
+	if a == b {
+		return t0, t1, a, b, a >= min && a <= max
 	}
-	for i := range set {
-		if EqualFloat64(set[i], t, tolerance) {
-			return set
+	if a < b {
+		// enters at min, leaves at max
+		if b <= min || a >= max {
+			return t0, t1, a, b, false
 		}
+		if a < min {
+			t0, x0 = (min-a)/(b-a), min
+		}
+		if b > max {
+			t1, x1 = (max-a)/(b-a), max
+		}
+		return t0, t1, x0, x1, true
 	}
-	return append(set, t)
+	// enters at max, leaves at min
+	if b >= max || a <= min {
+		return t0, t1, a, b, false
+	}
+	if a > max {
+		t0, x0 = (max-a)/(b-a), max
+	}
+	if b < min {
+		t1, x1 = (min-a)/(b-a), min
+	}
+	return t0, t1, x0, x1, true
 }
 
-// lineIntersect returns a line/box intersection.
-func (a *Box2) lineIntersect(l *Line2) *Line2 {
+// lineClip returns the part of a line segment within the box (nil if none).
+// A single point of contact is not returned. If noTop/noRight is set a line
+// segment lying on the top/right edge of the box is not returned either.
+// The end points returned are either the original end points or they are exactly
+// on the box edge that clipped them. Boxes sharing an edge clip a line segment
+// to bit-identical points on that edge, so the pieces of a line segment in the
+// boxes it crosses chain together without gaps or overlaps.
+func (a *Box2) lineClip(l *Line2, noTop, noRight bool) *Line2 {
 
 	u := l[0]
 	v := l[1].Sub(l[0])
 
-	if v.Y == 0 && u.Y == a.Max.Y {
+	if noTop && v.Y == 0 && u.Y == a.Max.Y {
 		// no solutions on the top box edge
 		return nil
 	}
 
-	if v.X == 0 && u.X == a.Max.X {
+	if noRight && v.X == 0 && u.X == a.Max.X {
 		// no solutions on the right box edge
 		return nil
 	}
 
-	// early exit for a line entirely within the box
-	if a.Contains(l[0]) && a.Contains(l[1]) {
-		return l
+	// clip the line segment to the x and y range of the box
+	tx0, tx1, x0, x1, ok := clipRange(l[0].X, l[1].X, a.Min.X, a.Max.X)
+	if !ok {
+		return nil
 	}
-
-	tSet := []float64{0, 1}
-
-	if v.Y != 0 {
-		// consider intersection with y-sides (top/bottom)
-		k := 1.0 / v.Y
-		tSet = tAppend(tSet, (a.Min.Y-u.Y)*k)
-		tSet = tAppend(tSet, (a.Max.Y-u.Y)*k)
+	ty0, ty1, y0, y1, ok := clipRange(l[0].Y, l[1].Y, a.Min.Y, a.Max.Y)
+	if !ok {
+		return nil
 	}
-
-	if v.X != 0 {
-		// consider intersection with x-sides (left/right)
-		k := 1.0 / v.X
-		tSet = tAppend(tSet, (a.Min.X-u.X)*k)
-		tSet = tAppend(tSet, (a.Max.X-u.X)*k)
-	}
-
-	// filter the t-values
-	var pSet []v2.Vec
-	for _, t := range tSet {
-		p := u.Add(v.MulScalar(t))
-		p = a.Snap(p, tolerance)
-		// is the point in the box?
-		if a.Contains(p) {
-			pSet = append(pSet, p)
-		}
-	}
-
-	if len(pSet) != 2 {
+	t0 := math.Max(tx0, ty0)
+	t1 := math.Min(tx1, ty1)
+	if t0 >= t1 {
+		// passes by a corner of the box
 		return nil
 	}
 
-	// make sure it's aligned with the original line
-	vx := pSet[1].Sub(pSet[0])
-	if v.Dot(vx) > 0 {
-		return &Line2{pSet[0], pSet[1]}
+	// An end point within the box is used as is: l[0] + (l[1] - l[0]) is not
+	// always l[1]. A clipped end point is put exactly on the box edge.
+	p0, p1 := l[0], l[1]
+	if !math.IsInf(t0, -1) {
+		p0 = u.Add(v.MulScalar(t0)).Clamp(a.Min, a.Max)
+		if t0 == tx0 {
+			p0.X = x0
+		}
+		if t0 == ty0 {
+			p0.Y = y0
+		}
 	}
-	return &Line2{pSet[1], pSet[0]}
+	if !math.IsInf(t1, 1) {
+		p1 = u.Add(v.MulScalar(t1)).Clamp(a.Min, a.Max)
+		if t1 == tx1 {
+			p1.X = x1
+		}
+		if t1 == ty1 {
+			p1.Y = y1
+		}
+	}
+	if p1.Sub(p0).Length2() == 0 {
+		// zero length
+		return nil
+	}
+	return &Line2{p0, p1}
+}
+
+// lineIntersect returns a line/box intersection.
+// Line segments on the top and right edges of the box are left to the neighbouring boxes.
+func (a *Box2) lineIntersect(l *Line2) *Line2 {
+	return a.lineClip(l, true, true)
 }
 
 // lineFilter returns the intersection of a box and a set of line segments.
-func (a *Box2) lineFilter(lSet []*Line2) []*Line2 {
+// See lineClip for noTop/noRight.
+func (a *Box2) lineFilter(lSet []*Line2, noTop, noRight bool) []*Line2 {
 	var out []*Line2
 	for _, l := range lSet {
-		x := a.lineIntersect(l)
+		x := a.lineClip(l, noTop, noRight)
 		if x != nil {
 			out = append(out, x)
 		}
